@@ -56,8 +56,11 @@ package lexer
 
 //@ func (*Lexer).Run
 //@   requires l != nil && l.MetricPool != nil && len(input) < 4294967296
-//@   loop 1 invariant LexInv(l) && (state != nil ==> StateReq(state, l)) && (state == nil ==> Done(l))
+//@   ensures  l.MetricPool == old(l.MetricPool)
+//@   ensures  result2 == nil ==> result0 != nil || result1 != nil
+//@   loop 1 invariant LexInv(l) && (state != nil ==> StateReq(state, l)) && (state == nil ==> Done(l)) && l.MetricPool == old(l.MetricPool)
 //@   modifies everything
+//@   preserves statsd.DatagramParser, pool.MetricPool
 
 //@ func lexSpecial
 //@   label L(self, false, false, true, false, false) && !isBound(self)
